@@ -1104,12 +1104,28 @@ def unpack_named_tuple(spec: ValueSpec) -> Expression:
         packed_value = spec.expression
     else:
         packed_value = "value"
+    member_ctx = spec.field_ctx
+    if deserialize_option in ("as_dict", "as_list"):
+        # the engine of the named tuple is not an engine of its members
+        member_ctx = spec.field_ctx.copy(
+            metadata={
+                k: v
+                for k, v in spec.field_ctx.metadata.items()
+                if k != "deserialize"
+            }
+        )
     for idx, field in field_indices:
+        member_type = annotations.get(field, Any)
         unpacker = UnpackerRegistry.get(
             spec.copy(
-                type=annotations.get(field, Any),
+                type=member_type,
                 expression=f"{packed_value}[{idx}]",
                 could_be_none=True,
+                field_ctx=(
+                    spec.field_ctx
+                    if is_named_tuple(member_type)
+                    else member_ctx
+                ),
             )
         )
         unpackers.append(unpacker)
